@@ -15,6 +15,7 @@ package actionlint
 import (
 	"bytes"
 	"fmt"
+	"os"
 	"path/filepath"
 	"runtime"
 	"sort"
@@ -177,6 +178,69 @@ func TestVerifC10(t *testing.T) {
 
 	baseTables := vTableFingerprints()
 	var idx int64
+	// ---- sequential part: no single lint may modify the shared tables. Inputs: a family of
+	// workflows that merge / extend the types of built-in contexts (an expression of a context
+	// type where a definition is expected, followed by literal definitions), and every workflow
+	// of the repository's test data.
+	if !isReplay || replay.Scenario == "sequential" {
+		var inputs []struct{ name, src string }
+		ctxExprs := []string{"github", "github.event", "github.event.inputs", "github.event.pull_request", "env", "vars", "secrets", "inputs", "needs", "steps", "job", "job.services", "runner", "strategy", "matrix", "fromJSON('{}')", "fromJSON('{\"a\":{\"b\":1}}')"}
+		for _, e := range ctxExprs {
+			ex := "${{ " + e + " }}"
+			head := "on: push\njobs:\n  a:\n    runs-on: ubuntu-latest\n    strategy:\n      matrix:\n"
+			tail := "    steps:\n      - run: echo ${{ toJSON(matrix) }} ${{ matrix.zzadded }}\n"
+			inputs = append(inputs,
+				struct{ name, src string }{"include-expr-then-literal:" + e, head + "        include:\n          - " + ex + "\n          - zzadded: v\n            zzother: {n: 1}\n" + tail},
+				struct{ name, src string }{"literal-then-include-expr:" + e, head + "        include:\n          - zzadded: v\n          - " + ex + "\n          - zzthird: w\n" + tail},
+				struct{ name, src string }{"rows+include-expr:" + e, head + "        zzadded: [1]\n        include:\n          - " + ex + "\n          - zzadded: {n: 2}\n" + tail},
+				struct{ name, src string }{"include-whole-expr:" + e, head + "        zzadded: [1]\n        include: " + ex + "\n" + tail},
+				struct{ name, src string }{"matrix-whole-expr:" + e, strings.Replace(head, "matrix:\n", "matrix: "+ex+"\n", 1) + tail},
+				struct{ name, src string }{"row-expr:" + e, head + "        zzadded: " + ex + "\n        include:\n          - zzadded: v\n" + tail},
+				struct{ name, src string }{"env-expr:" + e, "on: push\nenv: " + ex + "\njobs:\n  a:\n    runs-on: ubuntu-latest\n    env: " + ex + "\n    steps:\n      - run: echo ${{ env.zzadded }}\n        env: " + ex + "\n"},
+			)
+		}
+		repoDir := os.Getenv("VERIF_REPO")
+		if repoDir == "" {
+			repoDir = "/repo"
+		}
+		for _, g := range []string{"testdata/examples/*.yaml", "testdata/ok/*.yaml", "testdata/err/*.yaml"} {
+			m, _ := filepath.Glob(filepath.Join(repoDir, g))
+			sort.Strings(m)
+			for _, f := range m {
+				if b, err := os.ReadFile(f); err == nil {
+					inputs = append(inputs, struct{ name, src string }{strings.TrimPrefix(f, repoDir+"/"), string(b)})
+				}
+			}
+		}
+		for i, in := range inputs {
+			if !r.Mine(int64(i)) && !isReplay {
+				continue
+			}
+			if isReplay && replay.Order != nil && len(replay.Order) > 0 && replay.Order[0] != in.name {
+				continue
+			}
+			res := vLint(in.src, nil)
+			r.Evaluations++
+			r.Transitions++
+			r.Validated++
+			if res.Panic != "" {
+				r.Violation("panic-sequential", fmt.Sprintf("%s: %s", in.name, vTrunc(res.Panic, 300)), map[string]any{"scenario": "sequential", "order": []string{in.name}})
+			}
+			now := vTableFingerprints()
+			if d := vDiffFingerprints(baseTables, now); len(d) > 0 {
+				class := in.name
+				if k := strings.Index(class, ":"); k >= 0 {
+					class = class[:k]
+				}
+				r.Violation("tables-modified-by-one-lint:"+strings.Join(d, ",")+":"+class, fmt.Sprintf("linting %s modified the shared table(s) %v (later lints in the same process see different built-in types)\n%s", in.name, d, vTrunc(in.src, 600)), map[string]any{"scenario": "sequential", "order": []string{in.name}})
+				baseTables = now
+			}
+			r.Class("sequential:"+strings.SplitN(in.name, ":", 2)[0], true)
+		}
+		if isReplay && replay.Scenario == "sequential" {
+			return
+		}
+	}
 	for si := range c10Scenarios {
 		sc := &c10Scenarios[si]
 		alone := map[string][]string{}
